@@ -94,3 +94,9 @@ Theorem C11_source_origin_relative_parent : forall (B : backend) (u : url),
   gen_origin B u = origin B u /\ gen_relative u = relative u /\ gen_parent u = Ok (parent u).
 Proof. intros B u. split; [apply gen_origin_ok|split; [apply gen_relative_ok|apply gen_parent_ok]]. Qed.
 Print Assumptions C11_source_origin_relative_parent.
+
+(** ... and the public origin(), joinpath() and "/" in front of them *)
+From Yarl Require Import Proofs.GenSmallProofs.
+Theorem C11_source_origin_public : forall (B : backend) (u : url), gen_origin_pub B u = origin B u.
+Proof. exact gen_origin_pub_ok. Qed.
+Print Assumptions C11_source_origin_public.
